@@ -366,3 +366,86 @@ def projective_artists(tier, rng, rep):
                     plt.close(fig)
             rep.attempt("drawing_runs", inp, body)
             rep.case(key=(t, chart), nontrivial=True, sample={"chart": chart} if t == 0 else None)
+
+
+@bounded(P, "horosphere_artists", functions=[D + "HyperbolicDrawing.draw_horosphere", D + "HyperbolicDrawing.preprocess_object", "geometry_tools/hyperbolic.py:Horosphere.sphere_parameters"],
+         note="single horospheres and composites of them (mixed: ordinary circles, and in the half-plane horospheres centred at the model's point at infinity, in every position of the array): "
+              "each circle artist is tangent to the boundary at the horosphere's centre and passes through its reference point; a horosphere centred at infinity is the region above the "
+              "horizontal line through ITS reference point")
+def horosphere_artists(tier, rng, rep):
+    import matplotlib
+    matplotlib.use("Agg")
+    import matplotlib.pyplot as plt
+    from matplotlib.collections import EllipseCollection
+    from matplotlib.patches import Rectangle
+    from geometry_tools import hyperbolic as h, drawtools
+    N = 60 if tier == 'thorough' else 12
+    rep.rule = "Poincare disk and half-plane; composites of 1..5 horospheres, random ideal centres and interior reference points; in the half-plane a random subset is centred at infinity (angle 0)"
+    rep.bound = f"{N} composites x 2 models"
+    for t in range(N):
+        k = int(rng.integers(1, 6))
+        ang = rng.uniform(0.5, 2 * np.pi - 0.5, k)
+        for model in ("poincare", "halfspace"):
+            a = ang.copy()
+            at_inf = np.zeros(k, dtype=bool)
+            if model == "halfspace" and t % 3 != 2:
+                at_inf = rng.random(k) < 0.4
+                if t % 3 == 1 and k >= 2:
+                    at_inf[0], at_inf[-1] = False, True          # an ordinary horosphere first, one centred at infinity last
+                a[at_inf] = 0.0
+            kp = rng.normal(size=(k, 2)); kp = kp / np.linalg.norm(kp, axis=-1, keepdims=True) * rng.uniform(0.05, 0.8, size=(k, 1))
+            inp = {"model": model, "centre_angles": a.tolist(), "reference_klein": kp.tolist()}
+
+            def body():
+                fig, ax = plt.subplots(figsize=(3, 3))
+                try:
+                    dr = drawtools.HyperbolicDrawing(model=model, fig=fig, ax=ax)
+                    H = h.Horosphere(h.IdealPoint.from_angle(a.copy()), h.Point(kp.copy(), model="klein"))
+                    if k == 1 and t % 2:
+                        H = H[0]
+                    nc, npatch = len(ax.collections), len(ax.patches)
+                    dr.draw_horosphere(H)
+                    circles = []
+                    for c in ax.collections[nc:]:
+                        if not isinstance(c, EllipseCollection):
+                            rep.fail("horosphere_artist_kind", type(c).__name__, inp); return
+                        off = np.asarray(c.get_offsets(), dtype=float)
+                        wd, ht = 2 * np.asarray(c._widths, dtype=float), 2 * np.asarray(c._heights, dtype=float)
+                        if not np.all(np.abs(wd - ht) <= 1e-12):
+                            rep.fail("horosphere_is_a_circle", "width != height", inp); return
+                        circles += [(o, w_ / 2) for o, w_ in zip(off, wd)]
+                    rects = [p_ for p_ in ax.patches[npatch:] if isinstance(p_, Rectangle)]
+                    pm = spec.from_klein(kp, model)                     # reference points in the model
+                    xi = np.stack([np.cos(a), np.sin(a)], axis=-1)
+                    want_c, want_r = [], []
+                    for j in range(k):
+                        if at_inf[j]:
+                            continue
+                        if model == "poincare":
+                            r_ = (1 - 2 * pm[j] @ xi[j] + pm[j] @ pm[j]) / (2 * (1 - pm[j] @ xi[j]))
+                            want_c.append((1 - r_) * xi[j]); want_r.append(r_)
+                        else:
+                            x0 = spec.p2h(xi[j])[0]
+                            r_ = ((pm[j][0] - x0) ** 2 + pm[j][1] ** 2) / (2 * pm[j][1])
+                            want_c.append(np.array([x0, r_])); want_r.append(r_)
+                    if len(circles) != len(want_c):
+                        rep.fail("one_circle_per_horosphere", f"{len(circles)} circles drawn for {len(want_c)} horospheres with a finite centre", inp); return
+                    for (o, r_), wc, wr in zip(circles, want_c, want_r):
+                        if wr > 50:
+                            continue
+                        if not (np.all(np.abs(o - wc) <= 1e-6 * (1 + wr)) and abs(r_ - wr) <= 1e-6 * (1 + wr)):
+                            rep.fail("horosphere_circle_geometry", f"drawn circle centre {o.tolist()} radius {r_}; the horosphere is the circle centre {wc.tolist()} radius {wr}", inp); return
+                    heights = sorted(float(pm[j][1]) for j in range(k) if at_inf[j])
+                    got_h = sorted(float(p_.get_y()) for p_ in rects)
+                    if len(got_h) != len(heights) or not np.all(np.abs(np.array(got_h) - np.array(heights)) <= 1e-7 * (1 + np.array(heights))):
+                        rep.fail("horosphere_at_infinity_is_a_horizontal_line_through_its_reference_point", f"lines drawn at heights {got_h}; reference points at heights {heights}", inp); return
+                    top = ax.get_ylim()[1]
+                    for p_ in rects:
+                        if p_.get_y() + p_.get_height() < top or p_.get_x() > ax.get_xlim()[0] or p_.get_x() + p_.get_width() < ax.get_xlim()[1]:
+                            rep.fail("horosphere_at_infinity_fills_the_view_above_the_line", f"rectangle {p_.get_xy()} {p_.get_width()} x {p_.get_height()}", inp); return
+                finally:
+                    plt.close(fig)
+            rep.attempt("drawing_runs", inp, body)
+            rep.case(key=(t, model), nontrivial=bool(at_inf.any()) and not bool(at_inf.all()), sample=inp if (t, model) == (1, "halfspace") else None)
+            if len(rep.failures) >= 3:
+                return
